@@ -4,6 +4,8 @@
 //! always after dependencies, C12 released items survive cancellation of `next`, C13 processor
 //! streams deliver exactly once and in order.
 
+#![allow(dead_code, unused_assignments)]
+
 mod c10;
 mod c11;
 mod c12;
